@@ -263,6 +263,29 @@ class LexModel:
             for a in argvals:
                 if isinstance(a, tuple) and a[0] == 'closure':
                     self.closures.append(a[1])
+            # run the scan over the characters that are known: a predicate that answers the same whatever the escape flag is
+            # consumes a known character or stops at it; from the first unknown character on the input is treated as ended
+            clo = next((a[1] for a in argvals if isinstance(a, tuple) and a[0] == 'closure'), None)
+            if clo is not None and self.pos is not None and getattr(self, 'simulate_scans', True):
+                from rules import c08 as _c08
+                while self.pos is not None:
+                    c = self.at(self.pos)
+                    if c is None:
+                        break
+                    if c is UNKNOWN_CHAR:
+                        self.pos = None
+                        break
+                    tb = _c08.closure_table(self.F, clo, [c]) or {}
+                    r0, r1 = (tb.get((c, 0)) or (None,))[0], (tb.get((c, 1)) or (None,))[0]
+                    if r0 is None or r0 != r1:
+                        self.pos = None
+                        break
+                    if r0 == 1:
+                        self.pos += 1
+                        self.bumps += 1
+                        continue
+                    break
+                return None
             self.pos = None          # unknown number of characters consumed: treat the input as ended
             return None
         if name.endswith('::index') and 'Index<' in name and 'str' in name and len(argvals) == 2 and 'RangeFrom' in str(argvals[1])[:80] and 'offset' in str(argvals[1]):
